@@ -6,7 +6,7 @@
     width x immediates on both sides of -128/127 (and further boundary values) x both modes, and
     for PUSH/POP of every 16/32-bit register. *)
 From Coq Require Import List ZArith String Bool.
-From Gosk Require Import Base.Bytes Model.Ast Model.Asm Spec.X86Len Check.C01 Lemmas.SweepLemmas.
+From Gosk Require Import Base.Bytes Model.Ast Model.Asm Spec.X86Len Check.C01 Lemmas.SweepLemmas Lemmas.C18MemLemmas.
 Import ListNotations.
 Local Open Scope Z_scope.
 
@@ -17,6 +17,14 @@ Print Assumptions C18_reg_imm_shortest.
 Theorem C18_stack_shortest : forall c, In c sweep_stack -> ok18 c = true.
 Proof. apply forallb_forall. exact sweep_stack_short. Qed.
 Print Assumptions C18_stack_shortest.
+
+(* memory destinations: ADD/OR/AND/SUB/XOR/CMP BYTE|WORD|DWORD [m], imm for every 16-bit addressing shape in both modes, the
+   absolute forms and a cross-section of the 32-bit shapes, immediates on both sides of -128/127 and of 255/256 *)
+Theorem C18_mem_imm_shortest : forall c, In c sweep_mi18 -> ok18 c = true.
+Proof. apply forallb_forall. exact sweep_mi18_short. Qed.
+Print Assumptions C18_mem_imm_shortest.
+Example C18_mem_domain_size : Z.of_nat (Datatypes.length sweep_mi18) = 23328.
+Proof. exact sweep_mi18_size. Qed.
 
 (* the boundary named by the property: ADD BX,-128 takes the sign-extended imm8 form *)
 Example C18_boundary : model_bytes 16 (SMnem "ADD" [ident "BX"; num (-128)])%string = Some [131; 195; 128]
